@@ -3,7 +3,7 @@ C01 / meta-block writers, part 7: from C17's facts about one `BuildAndStoreHuffm
 `CodeFacts` the assembly needs: the reader's `readCode`, and symbol-by-symbol agreement (`SymIO`) of the
 writer's `depth` / `bits` tables with the code the reader holds.
 -/
-import BV.Lemmas.MetaBlockTrivial
+import BV.Lemmas.MetaBlockHisto
 import BV.Props.C17
 import BV.Lemmas.HuffmanEntryPoints
 
@@ -12,6 +12,12 @@ open BV.Gen BV.Bits BV.Huffman BV.PrefixArith BV.Recoder
 open BV.Header (writeBits_ok)
 open BV.Lemmas.HuffmanRead (takeBits_bitsOf bitsOf_length readSym_spec)
 open BV.Lemmas.HuffmanCanon (canonicalCodes_getD countLen_append)
+
+/-- what the round trip needs of one stored prefix code: the appended description is read back to a
+code that agrees with the writer's tables on every symbol the histogram counts -/
+def CodeFacts (hist : List Nat) (len A : Nat) (w w' : Writer) (depth' bits' : List Nat) : Prop :=
+  ∃ cb code, w' = w ++ cb ∧ (∀ rest, readCode A (cb ++ rest) = some (code, rest)) ∧
+    ∀ s, s < len → hist.getD s 0 ≠ 0 → SymIO depth' bits' code s
 
 theorem getD_take (l : List Nat) (a i : Nat) (h : i < a) : (l.take a).getD i 0 = l.getD i 0 := by
   simp [List.getD_eq_getElem?_getD, List.getElem?_take, h]
@@ -331,5 +337,40 @@ theorem codeFacts_of_build (h : List Nat) (len A : Nat) (w0 w1 : Writer) (d b : 
       exact symIO_of_lens d b len A s hA (by omega) (by omega) hzd hg.hlim hg.hkraft
         (fun i hi h0 => by have := hgb.2.2 i hi; rw [if_pos h0] at this; exact this)
         h2d hs ((hg.hsupp s hs).mpr hne)
+
+open BV.Lemmas.HuffmanSimple BV.Lemmas.HuffmanEntry in
+/-- **`BuildAndStoreHuffmanTree` as the trivial writer calls it does not panic** (no index out of range, no
+`BrotliWriteBits` assertion, the tree construction terminates), whatever the histogram -/
+theorem build_total (h : List Nat) (len A : Nat) (w0 : Writer)
+    (hlen : len ≤ h.length) (h704 : len ≤ 704) (hsum : h.sum ≤ 2 ^ 25) (hA1 : 1 ≤ A) (hA : A ≤ len)
+    (hz : ∀ i, A ≤ i → h.getD i 0 = 0) :
+    ∃ d b w1, buildAndStoreHuffmanTree h len A scratchTree (List.replicate len 0) (List.replicate len 0) w0
+      = .ok (d, b, w1) := by
+  have hst : scratchTree.length = 1409 := by unfold scratchTree; rw [List.length_replicate]
+  have hsum' : (h.take len).sum ≤ 2 ^ 25 := Nat.le_trans (sum_take_le h len) hsum
+  have hu : ∀ s ∈ ascNZ h len 0, s < A := by
+    intro s hs
+    obtain ⟨_, h2, h3⟩ := (mem_ascNZ h len 0 s).mp hs
+    by_cases hsa : s < A
+    · exact hsa
+    · exact absurd (hz s (by omega)) h3
+  by_cases hc1 : (ascNZ h len 0).length ≤ 1
+  · have hh : (ascNZ h len 0).headD 0 < A := by
+      match hL : ascNZ h len 0 with
+      | [] => exact hA1
+      | a :: _ => exact hu a (by rw [hL]; simp)
+    obtain ⟨sbits, _, hb, _⟩ := build_single_roundtrip h len A scratchTree (List.replicate len 0)
+      (List.replicate len 0) w0 [] hlen hc1 hh hA1 (by omega)
+      (by rw [List.length_replicate]; omega) (by rw [List.length_replicate]; omega)
+    exact ⟨_, _, _, hb⟩
+  · by_cases hc4 : (ascNZ h len 0).length ≤ 4
+    · obtain ⟨d1, b1, sbits, hb, _⟩ := build_simple_roundtrip h len A scratchTree
+        (List.replicate len 0) (List.replicate len 0) w0 [] hlen h704 hsum' ⟨by omega, hc4⟩ (by omega)
+        (by simp) (by simp) hu (by omega)
+      exact ⟨_, _, _, hb⟩
+    · obtain ⟨d1, b1, sbits, hb, _⟩ := build_complex_roundtrip h len A scratchTree
+        (List.replicate len 0) (List.replicate len 0) w0 [] A hlen h704 hsum' (by omega) (by omega) (by omega)
+        (by simp) (by simp) hA hu
+      exact ⟨_, _, _, hb⟩
 
 end BV.MetaBlock
